@@ -344,6 +344,33 @@ ANCHORS = [
 ]
 
 
+# f64 literals that are not `const` items (a struct literal inside a fn body, an argument of a constructor, an
+# inline factor): anchored by the text around them like ANCHORS; emitted into FConstants.v
+FANCHORS = [
+    ("KALMAN_Q_VALUE", "crates/srtla-core/src/kalman.rs", r"fn\s+for_rtt\b[^}]*?\bq_value\s*:\s*([\d_.eE+-]+)", 0.5),
+    ("KALMAN_Q_VELOCITY", "crates/srtla-core/src/kalman.rs", r"fn\s+for_rtt\b[^}]*?\bq_velocity\s*:\s*([\d_.eE+-]+)", 0.1),
+    ("KALMAN_R", "crates/srtla-core/src/kalman.rs", r"fn\s+for_rtt\b[^}]*?\br\s*:\s*([\d_.eE+-]+)", 2.0),
+    ("EWMA_DELTA_ALPHA", "crates/srtla-core/src/connection/rtt.rs", r"rtt_avg_delta\s*:\s*Ewma::new\(\s*([\d_.eE+-]+)\s*\)", 0.2),
+    ("RTT_JITTER_DECAY", "crates/srtla-core/src/connection/rtt.rs", r"self\.rtt_jitter_ms\s*\*=\s*([\d_.eE+-]+)\s*;", 0.99),
+    ("RTT_DEFAULT_MIN", "crates/srtla-core/src/connection/rtt.rs", r"fn\s+default\b[^}]*?\brtt_min_ms\s*:\s*([\d_.eE+-]+)", 200.0),
+]
+
+
+def collect_fanchors():
+    out = []
+    for name, rel, rx, fallback in FANCHORS:
+        val, found = fallback, False
+        try:
+            src = strip_comments(open(os.path.join(REPO, rel)).read())
+            m = re.search(rx, src, re.S)
+            if m:
+                val, found = float(m.group(1).replace("_", "")), True
+        except (OSError, ValueError):
+            pass
+        out.append((name, val, found, rel))
+    return out
+
+
 def collect_anchors():
     out = []
     for name, rel, rx, fallback in ANCHORS:
@@ -625,6 +652,12 @@ def main():
     for nm, v, found, rel in anchors:
         ints.append("Definition %s : Z := %d. (* anchored literal in %s; anchor %s *)" % (nm, v, rel, "matched" if found else "LOST (fallback value)"))
         emitted[nm] = v
+    fanchors = collect_fanchors()
+    for nm, v, found, rel in fanchors:
+        floats.append("Definition %s : float := %s. (* %r; anchored literal in %s; anchor %s *)" %
+                      (nm, coq_float(v), v, rel, "matched" if found else "LOST (fallback value)"))
+        emitted[nm] = v
+    anchors = anchors + fanchors
     facts, notes = shape_facts()
 
     hdr = "(* GENERATED by tools/gen_constants.py from the Rust sources under %s on every run. Do not edit. *)\n" % REPO
